@@ -43,6 +43,7 @@ class State:
         n.nchoice = s.nchoice; n.notes = list(s.notes); n.decisions = s.decisions; n.clock = s.clock
         n.tasks = None if s.tasks is None else {k: ((set(v[0]), set(v[1])) if isinstance(v, tuple) else v) for k, v in s.tasks.items()}
         n.loopcnt = dict(s.loopcnt); n.fidx = s.fidx; n.facts = dict(s.facts); n.havoc_used = s.havoc_used
+        if getattr(s, 'havoc_range', None) is not None: n.havoc_range = s.havoc_range
         if 'flmemo' in s.__dict__: n.flmemo = dict(s.flmemo)
         if 'rngcache' in s.__dict__: n.rngcache = dict(s.rngcache)
         return n
